@@ -1,4 +1,5 @@
 import CssVerif.Lemmas.StrCodec
+import CssVerif.Lemmas.StrExact
 import CssVerif.Gen.C03Productions
 /-!
 # C03 — serialise-then-parse is lossless; serialisation is a fixpoint (content codecs)
@@ -99,6 +100,20 @@ theorem parsed_string_roundtrip_partial (q : Nat) (body : List Nat) (hq : q ≠ 
   rw [replace2_no_a _ hall]
   simp [inner]
 
+/-- `helper.normalize` on a name without backslash is ASCII lower-casing, nothing else (names written in normalised
+form — property names, units, function names, pseudo names, at-keywords — are fixpoints when they are plain) -/
+theorem normalize_without_backslash (x : List Nat) (h : ∀ c ∈ x, c ≠ 0x5C) : normalize x = x.map lowerA := by
+  unfold normalize
+  split
+  · rename_i he; simp at he; subst he; rfl
+  · have := reSub_plain_append simpleEscMatch_needsBs x [] h
+    simp only [List.append_nil, reSub_nil] at this
+    rw [this]
+
+/-- `helper.uri` quotes exactly the values that contain `( ) , ; ' "` or white space (the lazy `.*?` of
+`_match_forbidden_in_uri` never has to cross a line feed, because a line feed is itself white space) -/
+theorem uri_quoted_iff (v : List Nat) : forbMatch v = v.any isForb := forbMatch_eq_any v
+
 /-! ## non-vacuity: the hypotheses are satisfiable by the content the property talks about
 (code points are written out: evaluating `String` literals in the kernel is slow) -/
 
@@ -109,6 +124,14 @@ example : SafeStr [0x61, 10, 13, 12, 0x22, 0x27, 0x1F600, 0x5C] := by decide
 /-- `img/x.png?v=1#f`, `a b(1),'"`, `a\\\\b` -/
 example : SafeUri [0x69, 0x6D, 0x67, 0x2F, 0x78, 0x2E, 0x70, 0x6E, 0x67, 0x3F, 0x76, 0x3D, 0x31, 0x23, 0x66] ∧ SafeUri [0x61, 0x20, 0x62, 0x28, 0x31, 0x29, 0x2C, 0x27, 0x22] ∧ SafeUri [0x61, 0x5C, 0x5C, 0x5C, 0x5C, 0x62] := by decide
 example : strD (strE [0x61, 10, 0x22, 0x5C]) = some [0x61, 10, 0x22, 0x5C] := by decide
+
+/-! ## exactness of `Safe` — a TEST over a small scope, not a theorem
+
+The theorems above show that `Safe` is sufficient. That it is also necessary (a value outside `Safe` does not read back)
+is checked here for every value of length ≤ 3 (strings) / ≤ 2 (URLs) over `\\ " a g LF SP ) U+0001`, and by the harness
+against the implementation for all values of ≤ 4–5 pieces over an 11-piece alphabet plus a random stream. -/
+example : ((allLists [0x5C, 0x22, 0x61, 0x67, 10, 0x20, 0x29, 1] 3).all strExact) = true := by decide +kernel
+example : ((allLists [0x5C, 0x22, 0x61, 0x67, 10, 0x20, 0x29, 1] 2).all uriExact) = true := by decide +kernel
 
 /-! ## known findings, machine-checked at their witnesses (the model exhibits what the implementation does) -/
 
